@@ -109,3 +109,40 @@ func VH_C17_DirHeaderRoundTrip() {
 	vhAssert(g.CRC32 == saved.CRC32 && g.Method == saved.Method && g.Flags == saved.Flags, "fields-round-trip")
 	vhReach("roundtrip") // vh:require roundtrip
 }
+
+// a well-formed one-entry central directory followed by a plain end record;
+// every field that is not structural is symbolic
+func vhDirBlob(nameLen int) []byte {
+	cd := vhBytes("cd", 46+nameLen+22)
+	vhAssume(binary.LittleEndian.Uint32(cd) == directoryHeaderSignature)
+	vhAssume(binary.LittleEndian.Uint16(cd[28:]) == uint16(nameLen)) // name length
+	vhAssume(binary.LittleEndian.Uint16(cd[30:]) == 0)               // extra length
+	vhAssume(binary.LittleEndian.Uint16(cd[32:]) == 0)               // comment length
+	// 32-bit sizes and offset below the ZIP64 escape value
+	vhAssume(binary.LittleEndian.Uint32(cd[20:]) != uint32Max && binary.LittleEndian.Uint32(cd[24:]) != uint32Max && binary.LittleEndian.Uint32(cd[42:]) != uint32Max)
+	end := cd[46+nameLen:]
+	vhAssume(binary.LittleEndian.Uint32(end) == directoryEndSignature)
+	vhAssume(binary.LittleEndian.Uint16(end[8:]) == 1 && binary.LittleEndian.Uint16(end[10:]) == 1) // one entry
+	vhAssume(binary.LittleEndian.Uint32(end[12:]) == uint32(46+nameLen))                              // directory size
+	vhAssume(binary.LittleEndian.Uint16(end[20:]) == 0)                                               // no archive comment
+	return cd
+}
+
+// H17.d: re-serialising an unmodified directory reproduces the original
+// bytes: entries, then the end-of-directory records.
+func VH_C17_OriginalDirectory() {
+	nameLen := vhConcretize(vhInt("namelen", 0, 2), 4)
+	cd := vhDirBlob(nameLen)
+	d, err := ReadWithDirectory(bytes.NewReader(nil), int64(len(cd))+int64(vhU32("body-size")), cd)
+	vhAssert(err == nil, "well-formed-directory-parses")
+	if err != nil {
+		return
+	}
+	vhReach("parsed") // vh:require parsed
+	entries, eod, err := d.GetOriginalDirectory(false)
+	vhAssert(err == nil, "original-directory-re-emitted")
+	if err != nil {
+		return
+	}
+	vhAssert(bytes.Equal(append(append([]byte{}, entries...), eod...), cd), "re-emitted-directory-equals-the-original-bytes")
+}
